@@ -248,6 +248,9 @@ OBJS = {
     ),
     "owner": (lambda: me.Owner(pet=me.HouseDog(name="d", collar=me.Collar(color="blue"), bark=1), others=[me.HouseCat(name="c", lives=9), me.Pet(name="p", collar=me.Collar())]), "m_edge.Owner"),
     "stamped": (lambda: me.Stamped(release=me.Release.SECOND, days=[me.Day.D1, me.Day.D2]), "m_edge.Stamped"),
+    "group": (lambda: me.Group(name="a", child=me.Folder(name="b", child=me.Group(name="c"))), "m_edge.Group"),
+    "chain": (lambda: me.Chain(label="a", next=me.BoldChain(label="b", next=me.Chain(label="c"))), "m_edge.Chain"),
+    "mixedmoney": (lambda: me.MixedMoney(content=["costs ", AnyElement(qname="{urn:e}amount", text="1.50"), " or ", AnyElement(qname="{urn:e}count", text="3", tail=" pieces")]), "m_edge.MixedMoney"),
     "attrmix": (lambda: me.AttrMix(id="i", lang="en", space="preserve", qualified=4, rest={"{urn:o}x": "1", "plain": "p"}, value=7), "m_edge.AttrMix"),
 }
 # objects whose annotations resolve only with SerializerConfig.globalns: serialized with that configuration only
@@ -412,6 +415,9 @@ _x("hw_onewild", "m_edge.OneWild", """<e:oneWild xmlns:e="urn:e"><e:head>h</e:he
 _x("hw_onewild_two", "m_edge.OneWild", """<e:oneWild xmlns:e="urn:e"><e:slotted id="1"/><e:thing><e:w>1</e:w></e:thing><free>x</free></e:oneWild>""")
 _x("hw_wildchoice", "m_edge.WildChoice", """<e:wildChoice xmlns:e="urn:e" xmlns:o="urn:o" xmlns:xsi="http://www.w3.org/2001/XMLSchema-instance" label="l"><e:thing><e:w>1</e:w></e:thing><e:n>5</e:n><o:free a="1">f</o:free><e:color>red</e:color><e:color xsi:nil="true"/><e:slotted id="3"/><plain/></e:wildChoice>""")
 _x("hw_stamped", "m_edge.Stamped", """<stamped xmlns="urn:e" days="1999-12-31 2020-02-29" at="2020-01-01T00:00:00"><release>2020-01-01T00:00:00</release><opens>09:00:00</opens></stamped>""")
+_x("hw_group", "m_edge.Group", """<e:group xmlns:e="urn:e" name="a"><e:child name="b"><e:child name="c"><e:child name="d"/></e:child></e:child></e:group>""")
+_x("hw_chain", "m_edge.Chain", """<e:chain xmlns:e="urn:e" xmlns:xsi="http://www.w3.org/2001/XMLSchema-instance" label="a"><e:next label="b" xsi:type="e:boldChain"><e:next label="c"/></e:next></e:chain>""")
+_x("hw_mixedmoney", "m_edge.MixedMoney", """<e:mixedMoney xmlns:e="urn:e">costs <e:amount>1.50</e:amount> or <e:count>3</e:count> pieces at <e:ratio>0.5</e:ratio> <e:b>bold</e:b> <e:other>x</e:other></e:mixedMoney>""")
 _x("hw_attrmix", "m_edge.AttrMix", """<e:attrMix xmlns:e="urn:e" xmlns:o="urn:o" id="i" xml:lang="en" xml:space="preserve" e:qualified="4" o:x="1" plain="p"> 7 </e:attrMix>""")
 _x("hw_item_constructs", "m_basic.Item", """<?xml version="1.0"?><!DOCTYPE item [<!ENTITY nm "entity name">]><?pi before?><!-- c --><item xmlns="urn:basic" id="&#49;" xml:lang="en"><?pi inside?><name>&nm; <![CDATA[<cdata>]]> &amp;<!-- in text --> end</name><qty><![CDATA[2]]></qty></item><!-- after --><?pi after?>""")
 _x("hw_item_leapday", "m_basic.Item", """<item xmlns="urn:basic" id="1"><name>leap</name><when>2024-02-29</when><stamp>2024-02-29T10:00:00Z</stamp><at>23:59:59.999</at><took>P1Y2M3DT4H5M6.5S</took></item>""")
@@ -488,6 +494,8 @@ JSON = {
     "js_wildchoice": ('{"items": [{"w": 1}, 5, "red", {"qname": "{urn:o}free", "text": "f", "tail": null, "children": [], "attributes": {}}, {"qname": "{urn:e}n", "type": null, "value": 7}, {"qname": "{urn:o}slot", "type": "{urn:e}slotted", "value": {"id": 1, "v": [], "kid": null}}], "label": "l"}', "m_edge.WildChoice", None),
     "js_owner": ('{"pet": {"name": "d", "bark": 1, "collar": {"color": "blue"}}, "other": [{"name": "c", "lives": 9, "collar": null}, {"name": "p", "collar": {"color": null}}]}', "m_edge.Owner", None),
     "js_stamped": ('{"release": "2021-06-30T23:59:59+02:00", "days": ["2020-02-29"], "at": "2020-01-01T00:00:00", "opens": "09:00:00"}', "m_edge.Stamped", None),
+    "js_group": ('{"name": "a", "child": {"name": "b", "child": {"name": "c", "child": null}}}', "m_edge.Group", None),
+    "js_chain": ('{"label": "a", "next": {"label": "b", "next": {"label": "c", "next": null}}}', "m_edge.Chain", None),
     "js_attrmix": ('{"id": "i", "lang": "en", "space": null, "qualified": 4, "rest": {"{urn:o}x": "1", "plain": "p"}, "value": 7}', "m_edge.AttrMix", None),
     "js_noclass_thing_w": ('{"w": 5}', None, None),
     "js_noclass_thing_v": ('{"v": "only the local type has this"}', None, None),
